@@ -274,7 +274,13 @@ impl Model {
     }
 
     /// (kind, string value) of a value description evaluated at (seed, j)
-    fn eval(&self, v: &J, seed: u64, j: u64, e: &mut Expectation) -> (EVal, String, Vec<(String, &'static str)>, String) {
+    fn eval(
+        &self,
+        v: &J,
+        seed: u64,
+        j: u64,
+        e: &mut Expectation,
+    ) -> (EVal, String, Vec<(String, &'static str)>, String) {
         let t = s(v, "t");
         let n = nn(seed, j);
         let unit_attr = v.get("unit").and_then(|u| u.as_str());
@@ -289,7 +295,11 @@ impl Model {
             let vc = format!(
                 "{}/{}",
                 s(ty, "style"),
-                if vars[idx].get("name").and_then(|n| n.as_str()).is_some() { "named" } else { "ident" }
+                if vars[idx].get("name").and_then(|n| n.as_str()).is_some() {
+                    "named"
+                } else {
+                    "ident"
+                }
             );
             return (EVal::Str(val), "None".into(), alts, vc);
         }
@@ -328,7 +338,15 @@ impl Model {
         (val, unit, vec![], String::new())
     }
 
-    fn fields(&self, ty: &J, fields: &[J], seed: u64, ctx: &Ctx, eff: Eff, e: &mut Expectation) -> bool {
+    fn fields(
+        &self,
+        ty: &J,
+        fields: &[J],
+        seed: u64,
+        ctx: &Ctx,
+        eff: Eff,
+        e: &mut Expectation,
+    ) -> bool {
         let own = s(ty, "style");
         let (cp_a, cpk) = self.cprefix(ty, eff, false);
         let (cp_b, _) = self.cprefix(ty, eff, true);
@@ -344,22 +362,28 @@ impl Model {
             let path = format!("{}{}.{}", ctx.path, tyname, ident);
             if fk == "flatten" {
                 had_child = true;
-                let (ea, eb, ek, edesc): (String, String, &'static str, String) = match f.get("edge") {
-                    Some(J::Object(o)) => {
-                        let raw = o["s"].as_str().unwrap();
-                        if o["kind"] == "prefix" {
-                            (
-                                inflect_prefix(raw, eff, false),
-                                inflect_prefix(raw, eff, true),
-                                "prefix",
-                                format!("[prefix={raw}]"),
-                            )
-                        } else {
-                            (raw.to_string(), raw.to_string(), "exact", format!("[exact_prefix={raw}]"))
+                let (ea, eb, ek, edesc): (String, String, &'static str, String) =
+                    match f.get("edge") {
+                        Some(J::Object(o)) => {
+                            let raw = o["s"].as_str().unwrap();
+                            if o["kind"] == "prefix" {
+                                (
+                                    inflect_prefix(raw, eff, false),
+                                    inflect_prefix(raw, eff, true),
+                                    "prefix",
+                                    format!("[prefix={raw}]"),
+                                )
+                            } else {
+                                (
+                                    raw.to_string(),
+                                    raw.to_string(),
+                                    "exact",
+                                    format!("[exact_prefix={raw}]"),
+                                )
+                            }
                         }
-                    }
-                    _ => (String::new(), String::new(), "none", String::new()),
-                };
+                        _ => (String::new(), String::new(), "none", String::new()),
+                    };
                 let child = Ctx {
                     chain_a: format!("{}{}", ctx.chain_a, ea),
                     chain_b: format!("{}{}", ctx.chain_b, eb),
@@ -388,13 +412,25 @@ impl Model {
             if named {
                 let nm = s(f, "name");
                 name = format!("{}{}", ctx.chain_a, nm);
-                alts = uniq(&name, vec![(format!("{}{}", ctx.chain_b, nm), "digit-word-boundary")]);
+                alts = uniq(
+                    &name,
+                    vec![(format!("{}{}", ctx.chain_b, nm), "digit-word-boundary")],
+                );
                 diag = uniq(
                     &name,
                     vec![
-                        (format!("{}{}{}", ctx.chain_a, cp_a, nm), "container-prefix-added"),
-                        (format!("{}{}", ctx.chain_a, inflect(nm, eff, true)), "inflected-name"),
-                        (format!("{}{}", ctx.chain_a, inflect(nm, eff, false)), "inflected-name"),
+                        (
+                            format!("{}{}{}", ctx.chain_a, cp_a, nm),
+                            "container-prefix-added",
+                        ),
+                        (
+                            format!("{}{}", ctx.chain_a, inflect(nm, eff, true)),
+                            "inflected-name",
+                        ),
+                        (
+                            format!("{}{}", ctx.chain_a, inflect(nm, eff, false)),
+                            "inflected-name",
+                        ),
                         (nm.to_string(), "chain-missing"),
                         (inflect(nm, eff, true), "chain-missing+inflected-name"),
                         (inflect(nm, eff, false), "chain-missing+inflected-name"),
@@ -406,7 +442,10 @@ impl Model {
                 for ch in [&ctx.chain_a, &ctx.chain_b] {
                     for cp in [&cp_a, &cp_b] {
                         for sd in [false, true] {
-                            c.push((format!("{}{}{}", ch, cp, inflect(ident, eff, sd)), "digit-word-boundary"));
+                            c.push((
+                                format!("{}{}{}", ch, cp, inflect(ident, eff, sd)),
+                                "digit-word-boundary",
+                            ));
                         }
                     }
                 }
@@ -419,8 +458,14 @@ impl Model {
                     }
                     d.push((format!("{}{}", cp_a, id), "chain-missing"));
                     d.push((id.clone(), "chain-and-container-prefix-missing"));
-                    d.push((format!("{}{}{}", ctx.chain_a, cp_raw, ident), "not-inflected"));
-                    d.push((format!("{}{}{}", ctx.chain_a, cp_a, ident), "identifier-not-inflected"));
+                    d.push((
+                        format!("{}{}{}", ctx.chain_a, cp_raw, ident),
+                        "not-inflected",
+                    ));
+                    d.push((
+                        format!("{}{}{}", ctx.chain_a, cp_a, ident),
+                        "identifier-not-inflected",
+                    ));
                     for other in Eff::ALL {
                         if other != eff {
                             let (ocp, _) = self.cprefix(ty, other, sd);
@@ -489,9 +534,18 @@ impl Model {
                         diag = uniq(
                             &name,
                             vec![
-                                (format!("{}{}", ctx.chain_a, inflect(raw, eff, true)), "inflected-name"),
-                                (format!("{}{}", ctx.chain_a, inflect(raw, eff, false)), "inflected-name"),
-                                (format!("{}{}{}", ctx.chain_a, cp_a, raw), "container-prefix-added"),
+                                (
+                                    format!("{}{}", ctx.chain_a, inflect(raw, eff, true)),
+                                    "inflected-name",
+                                ),
+                                (
+                                    format!("{}{}", ctx.chain_a, inflect(raw, eff, false)),
+                                    "inflected-name",
+                                ),
+                                (
+                                    format!("{}{}{}", ctx.chain_a, cp_a, raw),
+                                    "container-prefix-added",
+                                ),
                                 (raw.to_string(), "chain-missing"),
                                 (inflect(raw, eff, true), "chain-missing+inflected-name"),
                             ],
@@ -509,15 +563,25 @@ impl Model {
                         if cpk == "exact" {
                             // exact_prefix + tag name inflected as ONE string
                             d.push((
-                                format!("{}{}", ctx.chain_a, inflect(&format!("{cp_a}{id}"), eff, false)),
+                                format!(
+                                    "{}{}",
+                                    ctx.chain_a,
+                                    inflect(&format!("{cp_a}{id}"), eff, false)
+                                ),
                                 "exact-prefix-inflected",
                             ));
-                            d.push((inflect(&format!("{cp_a}{id}"), eff, false), "chain-missing+exact-prefix-inflected"));
+                            d.push((
+                                inflect(&format!("{cp_a}{id}"), eff, false),
+                                "chain-missing+exact-prefix-inflected",
+                            ));
                         }
                         for other in Eff::ALL {
                             if other != eff {
                                 let (ocp, _) = self.cprefix(ty, other, false);
-                                d.push((format!("{}{}{}", ctx.chain_a, ocp, inflect(raw, other, false)), "wrong-style"));
+                                d.push((
+                                    format!("{}{}{}", ctx.chain_a, ocp, inflect(raw, other, false)),
+                                    "wrong-style",
+                                ));
                             }
                         }
                         diag = uniq(&name, d);
@@ -535,10 +599,18 @@ impl Model {
                             "{}/{}/{}",
                             style_comp(own, ctx.inherited),
                             s(var, "vk"),
-                            if var.get("name").and_then(|n| n.as_str()).is_some() { "named" } else { "ident" }
+                            if var.get("name").and_then(|n| n.as_str()).is_some() {
+                                "named"
+                            } else {
+                                "ident"
+                            }
                         ),
                         family: "enum-tag",
-                        class: format!("{}/{}", if exact { "name_exact" } else { "name" }, eff.name()),
+                        class: format!(
+                            "{}/{}",
+                            if exact { "name_exact" } else { "name" },
+                            eff.name()
+                        ),
                         leaf: format!(
                             "tag-{}/{}/{}/{}/{}",
                             if exact { "name_exact" } else { "name" },
@@ -582,7 +654,10 @@ fn variant_string(var: &J, own: &str, inherited: Eff) -> (String, Vec<(String, &
     let primary = inflect(ident, eff_own, false);
     let mut c = vec![(inflect(ident, eff_own, true), "digit-word-boundary")];
     if own_style(own).is_none() && inherited != Eff::Identity {
-        c.push((inflect(ident, inherited, false), "tag-value-inherited-style"));
+        c.push((
+            inflect(ident, inherited, false),
+            "tag-value-inherited-style",
+        ));
         c.push((inflect(ident, inherited, true), "tag-value-inherited-style"));
     }
     let alts = uniq(&primary, c);
